@@ -19,7 +19,8 @@ ANY = ["<any>"]
 
 OPERANDS = ["a", "b", "*", "**", "a.b", "a.a", "b.a", "[0]", "a[0]", "b.*"]
 RULE = ("Purity E1: every document <= 3 nodes plus a 64-document family of "
-        "hashes holding hashes/lists (so collector operands share keys) x "
+        "hashes holding hashes/lists (so collector operands share keys) and 4 "
+        "documents whose hashes use YAML merge keys x "
         "(i) the C01 vocabulary paths <= 2 segments and (ii) %d collector "
         "expressions (p), (p)+(q), (p)-(q), (p)&(q) and one nesting level "
         "over 10 operands, (iii) a stride of the 61-item C15 vocabulary "
@@ -64,6 +65,15 @@ def family_docs():
              ["M", [["a", S(2)]], None], ["L", [S(1)], None],
              ["L", [S(1), S(2)], None], S(1)]
     return [["M", [["a", x], ["b", y]], None] for x in inner for y in inner]
+
+
+# hashes that take part of their keys from a YAML merge key (<<: *anchor)
+MERGE_KEY_DOCS = [
+    "b: &m\n  a: 1\n  b: 2\na:\n  <<: *m\n  x: 3\n",
+    "b: &m\n  x: 1\na:\n  <<: *m\n  a: 1\n  b: 2\n",
+    "a: &m\n  a: 1\nb:\n  <<: *m\n  b:\n    a: 1\n",
+    "x: &m\n  a: 1\n  b: 2\na:\n  <<: *m\n  a: 2\nb:\n  <<: *m\n",
+]
 
 
 def snap(doc):
@@ -457,7 +467,7 @@ def run_shard(shard):
     elif kind == "pure-collect":
         cps = collector_paths()
         extra = c15.all_paths()
-        fam = [gdocs.emit(s) for s in family_docs()]
+        fam = [gdocs.emit(s) for s in family_docs()] + MERGE_KEY_DOCS
         texts = fam + [gdocs.emit(s) for s in specs]
         for di in range(shard["part"], len(texts), shard["parts"]):
             if dl.expired():
